@@ -615,9 +615,31 @@ func (vc *VC) enterLoop(fr *Frame, li *loopInfo) {
 		fr.vals[phi] = vc.freshVal(hst, fmt.Sprintf("%s!loop", phiName(phi)), phi.Type())
 	}
 	fr.entryOf[h] = hst
+	isRange := false
+	for _, ins := range h.Instrs {
+		if phi, ok := ins.(*ssa.Phi); ok && phi.Comment == "rangeindex" {
+			isRange = true
+		}
+	}
 	for _, inv := range spec.Invariants {
 		t := vc.evalClause(fr, hst, inv, h, nil)
 		vc.assume(hst, t)
+		// range loops read element rangeidx()+1 next: give the solver that instance of every single-binder
+		// quantified invariant (index terms are named constants, which defeats pattern matching)
+		if isRange && inv.Expr != nil {
+			for _, g := range groundInstances(inv.Expr) {
+				gi := &Clause{Consts: inv.Consts, Label: inv.Label, Src: inv.Src, Expr: g, File: inv.File, Line: inv.Line}
+				func() {
+					n := len(vc.errs)
+					gt := vc.evalClause(fr, hst, gi, h, nil)
+					if len(vc.errs) == n {
+						vc.assume(hst, gt)
+					} else {
+						vc.errs = vc.errs[:n]
+					}
+				}()
+			}
+		}
 	}
 	if spec.Decreases != nil {
 		// remember the measure at the header
@@ -783,4 +805,41 @@ func stableTerm(t string, preText string) bool {
 		}
 	}
 	return true
+}
+
+// groundInstances: for every conjunct "forall x int :: body" of e, the instance body[x := rangeidx()+1].
+func groundInstances(e *SExpr) []*SExpr {
+	if e == nil {
+		return nil
+	}
+	if e.Op == "bin" && e.Name == "&&" {
+		return append(groundInstances(e.Args[0]), groundInstances(e.Args[1])...)
+	}
+	if e.Op == "forall" && len(e.Binders) == 1 && e.Binders[0].Type == "int" && !strings.Contains(e.String(), "rangeidx") {
+		repl := &SExpr{Op: "bin", Name: "+", Args: []*SExpr{{Op: "call", Name: "rangeidx"}, {Op: "lit", Lit: "1"}}}
+		return []*SExpr{substSExpr(e.Args[0], e.Binders[0].Name, repl)}
+	}
+	return nil
+}
+
+func substSExpr(e *SExpr, name string, repl *SExpr) *SExpr {
+	if e == nil {
+		return nil
+	}
+	if e.Op == "id" && e.Name == name {
+		return repl
+	}
+	if (e.Op == "forall" || e.Op == "exists") {
+		for _, b := range e.Binders {
+			if b.Name == name {
+				return e
+			}
+		}
+	}
+	c := *e
+	c.Args = nil
+	for _, a := range e.Args {
+		c.Args = append(c.Args, substSExpr(a, name, repl))
+	}
+	return &c
 }
